@@ -320,7 +320,15 @@ def run_correspondence(prop, spec, tier, seed, stats, samples, distinct, dist):
             d = mwh.compare_case(c, traces[i], res.get("c%d" % i), fields=spec["fields"])
         if d:
             stats["corr_disagree"] += 1
-            bad.append({"why": d[:5], "case": strip(c), "theorem_pinning_the_model_value": "coq/props/%s.v" % prop})
+            entry = {"why": d[:5], "case": strip(c), "theorem_pinning_the_model_value": "coq/props/%s.v" % prop}
+            if stats["corr_disagree"] <= 2:
+                try:
+                    small, why_small, tries = shrink_case(c, spec, work)
+                    if small is not None:
+                        entry["case_min"] = strip(small); entry["why_min"] = why_small[:3]; entry["shrink_attempts"] = tries
+                except Exception as e:      # shrinking is best effort: the original failing case is what counts
+                    entry["shrink_error"] = repr(e)[:200]
+            bad.append(entry)
         if len(samples) < 2:
             samples.append({"correspondence_case": abbreviate(c), "outputs_head": [str(o)[:160] for o, _ in traces[i][:3]]})
     if spec.get("simcorr"):
@@ -331,6 +339,70 @@ def run_correspondence(prop, spec, tier, seed, stats, samples, distinct, dist):
 
 def strip(c):
     return {k: v for k, v in c.items() if not k.startswith("_")}
+
+def disagreements(c, spec, work):
+    """run one case on the implementation and on the model; the list of disagreements (empty = agree)"""
+    c = {k: v for k, v in c.items() if not k.startswith("_")}
+    tr, tape, _ = mwh.run_impl(c)
+    res = mwh.run_model([("k0", mwh.case_text("k0", c, tape, c.get("_orcs")))], os.path.join(work, "shrink"))
+    if "out_keys" in spec["fields"]:
+        return compare_keys(c, tr, res.get("k0"))
+    return mwh.compare_case(c, tr, res.get("k0"), fields=spec["fields"])
+
+def shrink_case(c, spec, work, budget_tries=80):
+    """delta debugging on a disagreeing correspondence case: drop calls (never the first training call), then halve the
+    rows of training batches and queries; keeps every reduction after which model and implementation still disagree"""
+    tries = 0
+    cur = dict(strip(c)); cur["ops"] = list(cur["ops"])
+    why = disagreements(cur, spec, work)
+    if not why:
+        return None, [], 0            # not reproducible in isolation (should not happen: cases are self-contained)
+    first_train = next((i for i, o in enumerate(cur["ops"]) if o[0] in ("fit", "pfit")), 0)
+    changed = True
+    while changed and tries < budget_tries:
+        changed = False
+        # 1. drop whole calls, last first
+        i = len(cur["ops"]) - 1
+        while i >= 0 and tries < budget_tries:
+            if i != first_train and len(cur["ops"]) > 1:
+                cand = dict(cur); cand["ops"] = cur["ops"][:i] + cur["ops"][i + 1:]
+                tries += 1
+                try:
+                    w = disagreements(cand, spec, work)
+                except Exception:
+                    w = []
+                if w:
+                    cur, why, changed = cand, w, True
+                    if i < first_train: first_train -= 1
+            i -= 1
+        # 2. halve batches and queries
+        for i, o in enumerate(list(cur["ops"])):
+            if tries >= budget_tries: break
+            if o[0] in ("fit", "pfit") and len(o[1]) > 1:
+                h = len(o[1]) // 2
+                for part in (slice(0, h), slice(h, None)):
+                    o2 = (o[0], o[1][part], o[2][part], None if o[3] is None else o[3][part])
+                    cand = dict(cur); cand["ops"] = cur["ops"][:i] + [o2] + cur["ops"][i + 1:]
+                    tries += 1
+                    try:
+                        w = disagreements(cand, spec, work)
+                    except Exception:
+                        w = []
+                    if w:
+                        cur, why, changed = cand, w, True
+                        break
+            elif o[0] in ("pred", "pexp") and o[1] is not None and len(o[1]) > 1:
+                for part in (slice(0, 1), slice(1, None)):
+                    cand = dict(cur); cand["ops"] = cur["ops"][:i] + [(o[0], o[1][part])] + cur["ops"][i + 1:]
+                    tries += 1
+                    try:
+                        w = disagreements(cand, spec, work)
+                    except Exception:
+                        w = []
+                    if w:
+                        cur, why, changed = cand, w, True
+                        break
+    return cur, why, tries
 
 def check_hash(c):
     import hashlib
@@ -442,5 +514,12 @@ def replay(prop, path):
         res = mwh.run_model([("r0", mwh.case_text("r0", c, tape, c.get("_orcs")))], os.path.join(ROOT, "build", "work_replay"))
         d = mwh.compare_case(c, tr, res.get("r0"))
         print("REPLAY disagreements:", d[:5])
+        if body.get("case_min"):
+            cm = fix_case(body["case_min"])
+            trm, tapem, _ = mwh.run_impl(cm)
+            resm = mwh.run_model([("r1", mwh.case_text("r1", cm, tapem, cm.get("_orcs")))], os.path.join(ROOT, "build", "work_replay"))
+            dm = mwh.compare_case(cm, trm, resm.get("r1"))
+            print("REPLAY of the minimised case (%d calls):" % len(cm["ops"]), dm[:3])
+            d = d or dm
         return 1 if d else 0
     return 0
